@@ -12,8 +12,9 @@ import time
 import traceback
 
 VERIF_DIR = os.path.dirname(os.path.dirname(os.path.abspath(__file__)))
-REPLAY_DIR = os.path.join(VERIF_DIR, "replays")
-EVIDENCE_DIR = os.path.join(VERIF_DIR, "evidence")
+_OUT = os.environ.get("VERIF_OUT") or VERIF_DIR     # selftests redirect outputs to a scratch dir
+REPLAY_DIR = os.path.join(_OUT, "replays")
+EVIDENCE_DIR = os.path.join(_OUT, "evidence")
 KNOWN_FILE = os.path.join(VERIF_DIR, "known_findings.json")
 
 STREAMS = ("cfg", "sched", "gen", "fault", "peer")
